@@ -580,7 +580,7 @@ func wide8(m []byte, from int) [][]byte {
 		default:
 			continue
 		}
-		vals := []uint64{1, exact, 1<<42 + 1, 1<<63 - 1, 1 << 63, 1<<63 + exact, 1<<64 - 1}
+		vals := []uint64{1, exact, 1 << 28, 1<<42 + 1, 1<<63 - 1, 1 << 63, 1<<63 + exact, 1<<64 - 1}
 		if thorough {
 			vals = append(vals, 0, exact+1, 1<<31-1, 1<<31, 1<<32, 1<<42, 1<<62, 1<<63+1)
 		}
@@ -684,8 +684,10 @@ func generateMore(corpus bool) {
 				// only where an outer reader sits directly on it (AES, XOR) and for CBK alone
 				crypto := !strings.HasPrefix(p.name, "st:") || strings.Contains(p.name, "aes") || strings.Contains(p.name, "xor")
 				switch {
-				case crypto && name == "hello":
+				case crypto && name == "hello" && !strings.HasPrefix(p.name, "st:"):
 					step = 1
+				case crypto && name == "hello":
+					step = 2
 				case crypto:
 					step = 4
 				case name == "hello":
@@ -787,7 +789,7 @@ func generateMore(corpus bool) {
 			// short and cheap), every third byte behind zlib/gzip and for the second packet kind
 			step := 1
 			if !thorough && (strings.Contains(p.name, "zlib") || strings.Contains(p.name, "gzip")) {
-				step = 3
+				step = 4
 			}
 			if !thorough && name == "data" && strings.HasPrefix(p.name, "st:") && step == 1 {
 				step = 2
@@ -797,8 +799,10 @@ func generateMore(corpus bool) {
 				// only where an outer reader sits directly on it (AES, XOR) and for CBK alone
 				crypto := !strings.HasPrefix(p.name, "st:") || strings.Contains(p.name, "aes") || strings.Contains(p.name, "xor")
 				switch {
-				case crypto && name == "hello":
+				case crypto && name == "hello" && !strings.HasPrefix(p.name, "st:"):
 					step = 1
+				case crypto && name == "hello":
+					step = 2
 				case crypto:
 					step = 4
 				case name == "hello":
@@ -815,6 +819,27 @@ func generateMore(corpus bool) {
 					x := append([]byte{}, wire...)
 					x[i] ^= d
 					runHandle(kind, p, x, "stack-damaged")
+				}
+			}
+			if strings.Contains(p.name, "cbk") {
+				// the last byte of a CBK block is the (additively enciphered) count of the block:
+				// +-1 on it moves a full block to size+1 / size-1; for CBK alone every byte gets +-1
+				bs := 17
+				if strings.Contains(p.name, "cbk32") {
+					bs = 33
+				}
+				if !strings.Contains(p.name, "cbk32") && !strings.HasPrefix(p.name, "st:") {
+					bs = 129 // cfg.WrapCBK: the default block size 128
+				}
+				for i := range wire {
+					if strings.HasPrefix(p.name, "st:") && i%bs != bs-1 && i%17 != 16 && i%33 != 32 && i%129 != 128 {
+						continue
+					}
+					for _, d := range []byte{1, 0xff} {
+						x := append([]byte{}, wire...)
+						x[i] += d
+						runHandle(kind, p, x, "stack-damaged")
+					}
 				}
 			}
 			for i := len(wire) - 1; i > 0 && (i > len(wire)-12 || (thorough && i > len(wire)-40)); i-- {
@@ -879,8 +904,16 @@ func generateMore(corpus bool) {
 			kind = "hs"
 		}
 		plain := plainBytes(pk[name]())
-		for _, x := range wide8(plain, 46) {
+		// from 45: the length field of the Packet itself (wire form: the same class byte + length)
+		for _, x := range wide8(plain, 45) {
 			runHandle(kind, none, x, "len64")
+		}
+		// the 4-byte form of the Packet's own length, announcing more than follows
+		for _, v := range []uint32{1 << 20, 1 << 24, 1 << 28, 1<<32 - 1} {
+			x := append(append([]byte{}, plain[:45]...), 5, byte(v>>24), byte(v>>16), byte(v>>8), byte(v))
+			runHandle(kind, none, x, "len64")
+			runHandle(kind, none, append(x, plain[47:]...), "len64")
+			run("pktWire", x, "len64")
 		}
 	}
 	// ---- the JSON view of a Session filled from hostile registration data (modelled)
